@@ -73,6 +73,7 @@ def corr_operators(ck, tier, suite="K.operators"):
     onionW        ↔ inv(_bs_onion_peeling)  and  inverse operator ↔ model back substitution
     twoPointD     ↔ _bs_two_point
     daun0         ↔ _bs_daun(n, 0)          and  daun inverse (degree 0) ↔ model back substitution
+    daun1, daun2  ↔ _bs_daun(n, 1 | 2);   daun3 (driver op `daun3 n`: p, q and the (1, 4, 1) solve) ↔ _bs_daun(n, 3)
     """
     from abel import dasch, daun
     sizes = [2, 3, 4, 5, 8, 13, 25, 40] if tier == "quick" else [2, 3, 4, 5, 6, 7, 8, 13, 25, 40, 64, 101, 150]
@@ -87,6 +88,9 @@ def corr_operators(ck, tier, suite="K.operators"):
             fams.append(("daun0", model_matrix("daun0", n), quiet(daun._bs_daun, n, 0), 1e-13))
             fams.append(("daun1", model_matrix("daun1", n), quiet(daun._bs_daun, n, 1), max(1e-13, 8 * n ** 3 * 2.0 ** -53)))   # one ulp of the cancelling r³ terms
             fams.append(("daun2", model_matrix("daun2", n), quiet(daun._bs_daun, n, 2), max(1e-13, 8 * n ** 4 * 2.0 ** -53)))   # … of the r⁴ terms
+            # degree 3: value projections, derivative projections and the tridiagonal solve (Model/Daun3.lean, Thomas algorithm)
+            a3 = h2arr(drive([f"daun3 {n}"])[0].split()[3:]).reshape(n, n)
+            fams.append(("daun3", a3, quiet(daun._bs_daun, n, 3), max(1e-13, 8 * n ** 5 * 2.0 ** -53)))     # … of the r⁵ terms
             if n >= 3:
                 fams.append(("threePointD", model_matrix("threePointD", n), quiet(dasch._bs_three_point, n), 1e-13))
             d = rng.normal(size=n)
